@@ -1104,6 +1104,37 @@ def battery_recovered(ctx, agg, rng, curve: str, lr: int, ls: int, other_pub, pi
                         extra_cls=(f"r{lr}", f"s{ls}"))
 
 
+def battery_raw_that_is_der(ctx, agg, rng, curve: str, other_pub):
+    """A VALID raw r||s signature whose bytes happen to be a well-formed DER signature as well (the mirror image of
+    the DER-of-raw-length case): it must verify.  r||s := DER(r', s') with a DER length of exactly 2 x coordinate size."""
+    s = S()
+    c = recdsa.CURVES[curve]
+    if curve not in ("p256", "p384"):
+        return  # on P-521 the first raw byte would have to be 0x30 > 0x01: r would exceed the group order
+    lr, ls = WITNESS_DER_LEN[curve]
+    hname = {"p256": "sha256", "p384": "sha384"}[curve]
+    msg = b"vf c08 witness message (raw that is DER)"
+    digest = _digest(hname, msg)
+    for attempt in range(400):
+        raw = recdsa.der_encode_sig(_det_value(curve + "rd-r", lr, attempt), _det_value(curve + "rd-s", ls, attempt))
+        if len(raw) != 2 * c.size:
+            continue
+        r, sv = int.from_bytes(raw[: c.size], "big"), int.from_bytes(raw[c.size:], "big")
+        if not (0 < r < c.n and 0 < sv < c.n):
+            continue
+        q = recover_public(curve, r, sv, digest)
+        if q is not None:
+            break
+    else:
+        raise core.Inconclusive("no recoverable key for the raw-that-is-DER witness")
+    if not recdsa.verify_digest(c, q, digest, r, sv):
+        raise core.Inconclusive("key recovery construction is wrong")
+    want = {"type": "ecc", "curve": curve, "x": q[0], "y": q[1], "size": c.size, "kind": curve, "name": f"recovered-{curve}-raw-is-der"}
+    pub = s.keys.PublicKeyEcc.recreate(q[0], q[1], s.curve[curve])
+    judge_signature(ctx, agg, rng, pub, want, "recovered-" + curve, other_pub, raw, msg, hname, "raw", False,
+                    "witness-valid-raw-signature-that-is-also-well-formed-der", extra_cls=("raw-is-der",))
+
+
 def _det_value(tag: str, nbytes: int, attempt: int = 0) -> int:
     """Deterministic value of exactly nbytes bytes with the top bit clear (no rng: the witness never moves)."""
     v = int.from_bytes(hashlib.shake_256(f"c08 witness {tag} {attempt}".encode()).digest(nbytes), "big")
@@ -1145,6 +1176,8 @@ def battery_witness(ctx, agg, rng):
     lr, ls = WITNESS_DER_LEN["p256"]
     battery_recovered(ctx, agg, rng, "p256", lr, ls, other, pick_value=lambda w, n, a: _det_value("p256v" + w, n, a),
                       origin="witness-valid-signature-der-length-equals-raw-length")
+    battery_raw_that_is_der(ctx, agg, rng, "p256", other)
+    battery_raw_that_is_der(ctx, agg, rng, "p384", build_private(want_of_pool("p384_0")).get_public_key())
 
 
 # --------------------------------------------------------------------------------------- CLI ---
